@@ -15,3 +15,14 @@ func init() {
 		})
 	}
 }
+
+// Service metrics (prometheus counters of the relay-serving node): bookkeeping with no effect on
+// evidence or consensus state; calls are no-ops.
+func init() {
+	for _, m := range []string{"AddSessionFor", "AddRelayFor", "AddErrorFor", "AddRelayTimingFor", "AddChallengeFor", "AddUPOKTEarnedFor"} {
+		regSimple("(*github.com/pokt-network/pocket-core/x/pocketcore/types.ServiceMetrics)."+m, func(fr *frame, args []value) value {
+			fr.i.stub("service metrics are not recorded")
+			return nil
+		})
+	}
+}
